@@ -57,6 +57,65 @@ def shaped(F, ty, tag, heap=None):
     return Agg("adt", name, adt["variants"][0].get("name") or name.split("::")[-1], vals)
 
 
+def newtype(F, ty, payload):
+    """a value of the crate's newtype state `ty` (payload in field 0, markers where the ADT has marker fields)"""
+    name = ty.split("<")[0]
+    try:
+        adt = F.adt(name)
+        flds = adt["variants"][0]["fields"]
+    except Exception:
+        return Agg("adt", name, name.split("::")[-1], [payload])
+    vals = []
+    for fd in flds:
+        if (fd.get("ty") or "").startswith("core::marker::PhantomData"):
+            vals.append(Agg("adt", "core::marker::PhantomData", "PhantomData", []))
+        else:
+            vals.append(payload if fd["i"] == 0 else TOP)
+    return Agg("adt", name, adt["variants"][0].get("name") or name.split("::")[-1], vals)
+
+
+def by_prefix(F, cells, level=0):
+    """auto-cell function from {type name (prefix before `<`): payload | Agg value}: the listed state types are held at
+    `level` as newtypes around the payload; every other type is left to the other oracles"""
+    def auto(ty):
+        base = ty.split("<")[0]
+        if base in cells:
+            v = cells[base]
+            if v is ABSENT:
+                return {}
+            return {level: v if (isinstance(v, Agg) and v.name == base) else newtype(F, ty, v)}
+        return None
+    return auto
+
+
+def payload_of(store, p, prefix, default=None):
+    """the payload (field 0) of the state type whose name starts with `prefix`, as the state holds it at the end of path p
+    (default: the code never looked at the type, it still holds what the scenario put there)"""
+    for ty in store.types():
+        if ty.split("<")[0] == prefix:
+            v = store.value(p, ty, 0)
+            if v is ABSENT:
+                return ABSENT
+            return v.fields[0] if isinstance(v, Agg) and v.fields else v
+    return default
+
+
+def well_known(populations=None, rng=None):
+    """oracle for the two state types every component reaches through `State` sugar, when the code names them with the
+    generic accessors instead (`borrow_mut::<Populations<P>>()`, `borrow_mut::<Random>()`; the try_ forms follow by the
+    accessor family)"""
+    def oracle(interp, env, f, args, t, bb, path):
+        k = f.get("key") or ""
+        if k.startswith(REG) and f.get("name") in ("borrow", "borrow_mut"):
+            g = ((f.get("cgargs") or f.get("gargs") or [""])[0] or "")
+            if populations is not None and g.startswith("mahf::state::common::Populations<"):
+                return populations
+            if rng is not None and g == "mahf::state::random::Random":
+                return rng
+        return TOP
+    return oracle
+
+
 class Store:
     def __init__(self, F, levels=2, base=30000, auto=None, outward=1, level_of=None, newtypes=()):
         """auto(ty) -> {level: initial value} for a type met during evaluation that has no declared cell (None: such
